@@ -557,6 +557,10 @@ def run_modes(job, z3, bv, aes, decide, results):
             def fn():
                 data = [BV.var("d%d" % i, 0, 255) for i in range(total)]
                 iv = [BV.var("iv%d" % i, 0, 255) for i in range(16)]
+                if mode == "ctr":
+                    # the carry chain of Counter.increment is the subject of job L6:ctr-counter (all 16 carry
+                    # lengths); here the counter does not carry, which keeps the mode query on one path
+                    bv.CURRENT.assume((iv[15] <= 0xF0).e)
                 m = make(iv)
                 out, pos = [], 0
                 if len(cut) == 2:
